@@ -230,7 +230,7 @@ def _c12_vm_sample(d, tier, coq, build):
 
 CONFIG = {
     "properties_file": "Properties/C12.v",
-    "proof_files": ["Base/Prelude.v", "Proofs/TarRoundTrip.v", "Proofs/TarWalkOrder.v", "Proofs/TarListingOrder.v", "Proofs/TarModeSweep.v", "Proofs/TarRootMode.v", "Proofs/TarUnprivileged.v", "Proofs/TarSourceFacts.v", "Proofs/TarSetgid.v"],
+    "proof_files": ["Base/Prelude.v", "Proofs/TarRoundTrip.v", "Proofs/TarWalkOrder.v", "Proofs/TarListingOrder.v", "Proofs/TarModeSweep.v", "Proofs/TarRootMode.v", "Proofs/TarUnprivileged.v", "Proofs/TarSourceFacts.v", "Proofs/TarSetgid.v", "Proofs/TarRestoreOrder.v"],
     "model_files": ["Generated/GC12.v", "Model/TarRoundTrip.v", "Model/FileAnnotations.v"],
     "extract": "XC12.v",
     "ml_main": "c12_main.ml",
